@@ -1447,7 +1447,43 @@ func cmpRun[T cmp.Ordered](a, b T, compIdx int, rank func(T) int, r *pbt.R) erro
 	return nil
 }
 
+// specialFloats: operands whose comparison is not what a naive or "improved" ordering would give: the two zeros are
+// equal and neither is less; NaN is neither less than, nor equal to, anything (itself included).
+var specialFloats = []float64{math.NaN(), math.Copysign(0, -1), 0, math.Inf(-1), math.Inf(1), 1.5, -1.5}
+
+// cmpSpecial: Less and Equal on every ordered pair of specialFloats reflect < and == of the language.
+func cmpSpecial() error {
+	for _, a := range specialFloats {
+		for _, b := range specialFloats {
+			if got := gogu.Less(a, b); got != (a < b) {
+				return fmt.Errorf("Less(%v, %v) = %v, but %v < %v is %v (signbit of a: %v, of b: %v)", a, b, got, a, b, a < b, math.Signbit(a), math.Signbit(b))
+			}
+			if got := gogu.Equal(a, b); got != (a == b) {
+				return fmt.Errorf("Equal(%v, %v) = %v, but %v == %v is %v", a, b, got, a, b, a == b)
+			}
+			lt := func(x, y float64) bool { return x < y }
+			want := 0
+			if a < b {
+				want = 1
+			} else if b < a {
+				want = -1
+			}
+			if got := gogu.Compare(a, b, lt); got != want {
+				return fmt.Errorf("Compare(%v, %v, a<b) = %d, want %d", a, b, got, want)
+			}
+			a32, b32 := float32(a), float32(b)
+			if got := gogu.Less(a32, b32); got != (a32 < b32) {
+				return fmt.Errorf("Less[float32](%v, %v) = %v", a32, b32, got)
+			}
+		}
+	}
+	return nil
+}
+
 func cmpProp(c cmpCase, r *pbt.R) error {
+	if c.Kind == -1 {
+		return cmpSpecial()
+	}
 	k := norm(c.Comp, len(compNames))
 	switch norm(c.Kind, nElemKinds) {
 	case kString:
@@ -1777,10 +1813,11 @@ func TestProp(t *testing.T) {
 		},
 		&pbt.Check[cmpCase]{
 			Name: "compare",
-			Rule: "Compare(a,b,comp) = 1 if comp(a,b), -1 if comp(b,a), else 0, for the asymmetric comparators a<b, a>b, never, rank(a)<rank(b) (rank: |v|, len, floor); Less(a,b) == a<b; Equal(a,b) == (a==b). Types int, string, float64. " +
+			Rule: "Compare(a,b,comp) = 1 if comp(a,b), -1 if comp(b,a), else 0, for the asymmetric comparators a<b, a>b, never, rank(a)<rank(b) (rank: |v|, len, floor); Less(a,b) == a<b; Equal(a,b) == (a==b). Types int, string, float64. One fixed case runs Less, Equal and Compare(a<b) over every ordered pair of {NaN, -0.0, +0.0, -Inf, +Inf, 1.5, -1.5} (float64 and float32): they must agree with < and == of the language (NaN is neither less nor equal, the two zeros are equal). " +
 				"Enumerated: all (a,b) in [-4,4]^2 x comparator x type; random: width 12..2^40, b often a or -a. Non-trivial = a != b.",
 			Enum: cmpEnum, Gen: cmpGen, Prop: cmpProp, OutOfEnum: cmpOut,
 			RapidQuick: 1000, RapidThorough: 10000,
+			Fixed: []cmpCase{{Kind: -1}},
 		},
 		&pbt.Check[rangeCase]{
 			Name: "range",
